@@ -79,6 +79,25 @@ func nilOrigins(md protoreflect.MessageDescriptor) map[string]func() protoreflec
 					if _, ok := out["getunset-oneof"]; !ok {
 						out["getunset-oneof"] = func() protoreflect.Message { return pmt.New().Get(fd).Message() }
 					}
+					if _, ok := out["getunset-oneof-sibling"]; !ok && fd.ContainingOneof().Fields().Len() > 1 {
+						// another member of the same oneof is populated: Get of this member must still
+						// be the empty read-only message
+						var sib protoreflect.FieldDescriptor
+						for k := 0; k < fd.ContainingOneof().Fields().Len(); k++ {
+							if o := fd.ContainingOneof().Fields().Get(k); o.Number() != fd.Number() {
+								sib = o
+							}
+						}
+						out["getunset-oneof-sibling"] = func() protoreflect.Message {
+							p := pmt.New()
+							if sib.Message() != nil {
+								p.Set(sib, p.NewField(sib))
+							} else {
+								p.Set(sib, p.NewField(sib)) // scalar default: a oneof member is populated even at zero
+							}
+							return p.Get(fd).Message()
+						}
+					}
 					if _, ok := out["oneofnil"]; !ok {
 						out["oneofnil"] = func() protoreflect.Message {
 							p := pmt.New()
@@ -93,6 +112,70 @@ func nilOrigins(md protoreflect.MessageDescriptor) map[string]func() protoreflec
 							}
 							return p.Get(fd).Message()
 						}
+					}
+				}
+			}
+		}
+	}
+	return out
+}
+
+// nilHolders builds, for message type md, parents that hold a nil *md in a map value, a list
+// element or a oneof wrapper, together with a reference twin holding an EMPTY message instead.
+func nilHolders(md protoreflect.MessageDescriptor) map[string]func() (proto.Message, proto.Message) {
+	out := map[string]func() (proto.Message, proto.Message){}
+	for _, pmd := range allMessages() {
+		pmt, err := protoregistry.GlobalTypes.FindMessageByName(pmd.FullName())
+		if err != nil {
+			continue
+		}
+		for i := 0; i < pmd.Fields().Len(); i++ {
+			fd := pmd.Fields().Get(i)
+			pmd := pmd
+			switch {
+			case fd.IsMap() && fd.MapValue().Message() != nil && fd.MapValue().Message().FullName() == md.FullName():
+				if _, ok := out["nilmapvalue"]; !ok {
+					out["nilmapvalue"] = func() (proto.Message, proto.Message) {
+						p := pmt.New().Interface()
+						f := structField(p, fd)
+						mv := reflect.MakeMap(f.Type())
+						k := reflect.New(f.Type().Key()).Elem()
+						mv.SetMapIndex(k, reflect.Zero(f.Type().Elem()))
+						f.Set(mv)
+						d := dynamicpb.NewMessage(pmd)
+						dm := d.Mutable(fd).Map()
+						dm.Set(fd.MapKey().Default().MapKey(), dm.NewValue())
+						return p, d
+					}
+				}
+			case fd.IsList() && fd.Message() != nil && fd.Message().FullName() == md.FullName():
+				if _, ok := out["nillistelem"]; !ok {
+					out["nillistelem"] = func() (proto.Message, proto.Message) {
+						p := pmt.New().Interface()
+						f := structField(p, fd)
+						f.Set(reflect.MakeSlice(f.Type(), 2, 2))
+						d := dynamicpb.NewMessage(pmd)
+						dl := d.Mutable(fd).List()
+						dl.Append(dl.NewElement())
+						dl.Append(dl.NewElement())
+						return p, d
+					}
+				}
+			case !fd.IsList() && !fd.IsMap() && fd.Message() != nil && fd.Message().FullName() == md.FullName() && fd.ContainingOneof() != nil:
+				if _, ok := out["oneofnil"]; !ok {
+					out["oneofnil"] = func() (proto.Message, proto.Message) {
+						p := pmt.New()
+						p.Set(fd, p.NewField(fd))
+						ov := reflect.ValueOf(p.Interface()).Elem()
+						for j := 0; j < ov.NumField(); j++ {
+							if ov.Field(j).Kind() == reflect.Interface && !ov.Field(j).IsNil() && ov.Type().Field(j).Tag.Get("protobuf_oneof") != "" {
+								w := ov.Field(j).Elem()
+								w.Elem().Field(0).Set(reflect.Zero(w.Elem().Field(0).Type()))
+							}
+						}
+						d := dynamicpb.NewMessage(pmd)
+						d.Set(fd, d.NewField(fd))
+						return p.Interface(), d
 					}
 				}
 			}
@@ -180,6 +263,46 @@ func nilSuite(line nilLine, emit func(reflVerdict)) (origins, checks int) {
 		lib("protojson", func(m proto.Message) any { b, err := protojson.Marshal(m); return []any{len(b) > 0, err == nil} })
 		lib("prototext", func(m proto.Message) any { b, err := prototext.Marshal(m); return []any{len(b), err == nil} })
 		lib("IsValid", func(m proto.Message) any { return m.ProtoReflect().IsValid() })
+	}
+	// a parent holding the nil message must encode, size, compare and print as if it held an
+	// empty message (C09 read safety; C02/C04 byte level)
+	for name, mk := range nilHolders(md) {
+		checks++
+		var note string
+		pn := catch(func() {
+			p, d := mk()
+			want, _ := proto.MarshalOptions{Deterministic: true}.Marshal(d)
+			got, err := proto.MarshalOptions{Deterministic: true}.Marshal(p)
+			if err != nil {
+				note = "Marshal: " + err.Error()
+			} else if string(got) != string(want) {
+				note = fmt.Sprintf("parent bytes %x, reference %x", got, want)
+			}
+			if n := proto.Size(p); n != len(want) {
+				note += fmt.Sprintf(" Size=%d want %d", n, len(want))
+			}
+			if !proto.Equal(p, d) || !proto.Equal(d, p) {
+				note += " parent with nil element is not Equal to the reference holding an empty message"
+			}
+			c := proto.Clone(p)
+			if !proto.Equal(c, d) {
+				note += " Clone differs"
+			}
+			_ = fmt.Sprint(p)
+			if _, err := protojson.Marshal(p); err != nil {
+				note += " protojson: " + err.Error()
+			}
+			back := p.ProtoReflect().New().Interface()
+			if err := proto.Unmarshal(got, back); err != nil || !proto.Equal(back, d) {
+				note += " round trip of the parent differs"
+			}
+		})
+		if pn != "" {
+			note += " panic: " + pn
+		}
+		if note != "" {
+			emit(reflVerdict{What: "nil:holder", Who: "pulsar", Obs: note, Want: "as the reference with an empty message", Shape: name})
+		}
 	}
 	return
 }
